@@ -3578,7 +3578,22 @@ func checkMergeWalkSorted(p *Program, r *Report, rule string, entryName string) 
 					if len(sortedCopy.Common().Args) > 0 {
 						name = sortedCopy.Common().Args[0].Name()
 					}
-					r.Discharge(rule, fmt.Sprintf("%s/%s/merge-walk", p.FuncName(g), name), posOf(p, ia), "the list walked with a forward-only cursor is a sorting copy made in this function", true)
+					k2 := fmt.Sprintf("%s/%s/merge-walk", p.FuncName(g), name)
+					// the comparator has to be a recognised ascending three-way comparison
+					var cmpFn *ssa.Function
+					if args := sortedCopy.Common().Args; len(args) > 1 {
+						switch c := args[len(args)-1].(type) {
+						case *ssa.Function:
+							cmpFn = c
+						case *ssa.MakeClosure:
+							cmpFn, _ = c.Fn.(*ssa.Function)
+						}
+					}
+					if cmpFn != nil && ascendingCmp(cmpFn) {
+						r.Discharge(rule, k2, posOf(p, ia), "the list walked with a forward-only cursor is a sorting copy (ascending three-way comparator) made in this function", true)
+					} else {
+						r.Violate(rule, k2, posOf(p, sortedCopy), "the list walked with a forward-only cursor is a copy sorted with a comparator that is not a plain ascending three-way comparison (a<b: -1, a>b: 1, else 0) - for instance int(a-b) on unsigned values wraps around and does not order them", "in "+p.FuncName(g))
+					}
 					continue
 				}
 				key := fmt.Sprintf("%s/%s/merge-walk", p.FuncName(g), par.Name())
@@ -4034,5 +4049,79 @@ func checkLimitNotAllocated(p *Program, r *Report, rule string) {
 		r.Violate(rule, key, posOf(p, bad), "an allocation is sized by the memory limit: the limit is a bound that may be arbitrarily large (the largest int for 'no limit' panics in makeslice), not the number of elements that will be held", "in GenerateCachingSchedule")
 	} else {
 		r.Discharge(rule, key, p.Pos(e.Pos()), fmt.Sprintf("none of the %d allocations of the generator is sized by the memory limit", nAlloc), true)
+	}
+}
+
+// ---------------------------------------------------------------------------
+// NO-COUNT-NARROWING (R11j). The number of leaves a block adds or deletes is a
+// length; positions and row counts are computed from it with 64-bit
+// arithmetic. Converting such a count to a narrower integer type ("the same
+// type as the rest of the block bookkeeping") silently truncates blocks with
+// 65536 or more additions: roots stay right (the loop still adds every leaf)
+// but every position derived from the truncated count is wrong.
+
+func checkNoCountNarrowing(p *Program, r *Report, rule string, entryNames []string) {
+	n := 0
+	for _, en := range entryNames {
+		e := p.Func(en)
+		if e == nil {
+			r.MissingAnchor(rule, en, "block-application entry not found")
+			continue
+		}
+		reach := p.StaticReach(e)
+		reach[e] = true
+		nConv := 0
+		var bad ssa.Instruction
+		for _, g := range sortedFuncs(p, reach) {
+			if g.Blocks == nil || !p.owns(g) {
+				continue
+			}
+			for _, b := range g.Blocks {
+				for _, in := range b.Instrs {
+					cv, ok := in.(*ssa.Convert)
+					if !ok {
+						continue
+					}
+					dst, ok1 := cv.Type().Underlying().(*types.Basic)
+					src, ok2 := cv.X.Type().Underlying().(*types.Basic)
+					if !ok1 || !ok2 || dst.Info()&types.IsInteger == 0 || src.Info()&types.IsInteger == 0 {
+						continue
+					}
+					if basicBits(dst) >= basicBits(src) {
+						continue
+					}
+					nConv++
+					fromLen := flowsFrom(cv.X, func(x ssa.Value) bool {
+						c, ok := x.(*ssa.Call)
+						return ok && builtinName(c.Common()) == "len"
+					}, 0, map[ssa.Value]bool{})
+					if fromLen && bad == nil {
+						bad = in
+					}
+				}
+			}
+		}
+		n++
+		key := en + "/count-narrowing"
+		if bad != nil {
+			r.Violate(rule, key, posOf(p, bad), "a count taken from a length is converted to a narrower integer type (in "+p.FuncName(bad.Parent())+"): a block with more elements than that type can hold is truncated silently, and every position computed from the count is wrong", "reached from "+en)
+		} else {
+			r.Discharge(rule, key, p.Pos(e.Pos()), fmt.Sprintf("none of the %d narrowing integer conversions under this entry takes a value derived from a length", nConv), true)
+		}
+	}
+	r.Floor(rule, "block-application entries", n, len(entryNames))
+}
+
+// basicBits: the width of a basic integer type in bits (int, uint and uintptr count as 64).
+func basicBits(b *types.Basic) int {
+	switch b.Kind() {
+	case types.Int8, types.Uint8:
+		return 8
+	case types.Int16, types.Uint16:
+		return 16
+	case types.Int32, types.Uint32:
+		return 32
+	default:
+		return 64
 	}
 }
